@@ -69,6 +69,16 @@ def lifeStream (s : String) : Option H2Stream :=
     some { st := st, bodyPending := (← b.toNat?) ≠ 0, ri := (← c.toInt?) }
   | _ => none
 
+def lifeFrame (s : String) : Option (Nat × Bool) :=
+  match s.toList.reverse with
+  | 'e' :: rest => do some ((← (String.ofList rest.reverse).toNat?), true)
+  | _ => do some ((← s.toNat?), false)
+
+def lifeField (s : String) : Option (Nat × Nat) :=
+  match s.splitOn "," with
+  | [a, b] => do some ((← a.toNat?), (← b.toNat?))
+  | _ => none
+
 def lifeLine : List String → String
   | ["ct1", st, inEv, n, ver, rts, wts, cts, ka, ri, wi, now] =>
     match st.toNat? >>= CState.ofCode, lifeBool inEv, n.toNat?, ver.toInt?, rts.toInt?, wts.toInt?,
@@ -86,10 +96,34 @@ def lifeLine : List String → String
       let r := checkTimeoutH2 { st := st, streams := ss, rts := rts, wts := wts, kaIdle := ka, wi := wi } now
       s!"{if r.1 then 1 else 0} {r.2.1.code} {if r.2.2 then 1 else 0}"
     | _, _, _, _, _, _, _ => "bad-op"
-  | ["lc", cur, lo, hi, lim, dis] =>
-    match cur.toInt?, lo.toInt?, hi.toInt?, lim.toNat?, dis.toNat? with
-    | some cur, some lo, some hi, some lim, some dis => toString (loadCheck cur lo hi lim dis)
-    | _, _, _, _, _ => "bad-op"
+  | "lc" :: cur :: lo :: hi :: lim :: dis :: more =>
+    -- (an optional sixth number, srv->srvconf.max_conns, does not enter the decision)
+    match cur.toInt?, lo.toInt?, hi.toInt?, lim.toNat?, dis.toNat?, more.mapM String.toNat? with
+    | some cur, some lo, some hi, some lim, some dis, some m =>
+      if m.length > 1 then "bad-op" else toString (loadCheck cur lo hi lim dis)
+    | _, _, _, _, _, _ => "bad-op"
+  | ["mcl", mc, mf] =>
+    -- effective connection limit for configured max-connections / max-fds (server start-up)
+    match mc.toNat?, mf.toNat? with
+    | some mc, some mf => toString (effMaxConns mc ({ mf := mf } : Cfg).maxFds)
+    | _, _ => "bad-op"
+  | "h2d" :: maxkb :: cl :: frames =>
+    match maxkb.toNat?, cl.toInt?, frames.mapM lifeFrame with
+    | some maxkb, some cl, some fr =>
+      if fr.isEmpty then "bad-op" else
+      let b0 : H2Body := { cl := if cl < 0 then none else some cl.toNat }
+      let step := fun (acc : H2Body × List String) (f : Nat × Bool) =>
+        let r := h2DataStep (maxkb * 1024) acc.1 f.1 f.2
+        let rst := match r.2 with | some c => toString c | none => "-"
+        (r.1, s!"{r.1.bytesIn},{r.1.status},{if r.1.isOpen then "o" else "c"},{rst}" :: acc.2)
+      String.intercalate " " ((fr.foldl step (b0, [])).2.reverse)
+    | _, _, _ => "bad-op"
+  | "h2h" :: fs :: fields =>
+    match fs.toNat?, fields.mapM lifeField with
+    | some fs, some fl =>
+      let r := h2HeadScan fs 0 0 fl
+      if r.1 = 0 then "0" else s!"{r.1}@{r.2}"
+    | _, _ => "bad-op"
   | "sc" :: cfg :: ops =>
     match lifeCfg cfg, ops.mapM lifeOp with
     | some cfg, some ops =>
